@@ -20,6 +20,8 @@ LEVEL = 'model_checking'
 KINDS = ('list', 'dict', 'tup')
 TNAME = {'list': 'list', 'dict': 'dict', 'tup': 'tuple', 'cdict': 'dict'}
 KINDS_C = ('list', 'dict', 'tup', 'cdict')     # cdict: a dict whose values carry comments
+WATCHDOG_S = 3          # a print of a <= 8-node graph takes well under a millisecond
+MAX_TIMEOUTS_PER_CHUNK = 4
 MARK = re.compile(r'<Recursion on (\w+) with id=(-?\d+)>')
 
 
@@ -163,11 +165,11 @@ def families():
 
 def pf(v, **kw):
     try:
-        with core.deadline(10):
+        with core.deadline(WATCHDOG_S):
             return oracles.run_pformat(v, **kw)
     except core.Timeout:
         r = oracles.Run()
-        r.text, r.exc, r.warnings = None, 'TIMEOUT: did not terminate within 10 s', []
+        r.text, r.exc, r.warnings = None, 'TIMEOUT: did not terminate within %s s' % WATCHDOG_S, []
         return r
     except RecursionError as e:
         r = oracles.Run()
@@ -267,12 +269,18 @@ def work(item):
     if kind == 'cgraphs':
         _, n, lo, hi = item
         for spec in itertools.islice(graphs(n, 2, KINDS_C), lo, hi):
+            if part.c['viol:timeout-or-exception'] >= MAX_TIMEOUTS_PER_CHUNK:
+                part.c['chunk_cut_short_after_timeouts'] += 1
+                break
             if any(nd[0] == 'cdict' for nd in spec):
                 check_graph(spec, part, widths=(10 ** 6, 20, 1))
                 part.c['graphs'] += 1
     elif kind == 'graphs':
         _, n, maxdeg, lo, hi = item
         for spec in itertools.islice(graphs(n, maxdeg), lo, hi):
+            if part.c['viol:timeout-or-exception'] >= MAX_TIMEOUTS_PER_CHUNK:
+                part.c['chunk_cut_short_after_timeouts'] += 1
+                break
             check_graph(spec, part)
             part.c['graphs'] += 1
     elif kind == 'families':
